@@ -71,6 +71,7 @@ pub struct Case {
 pub enum Prop {
     C01,
     C02,
+    C04,
     C06,
     C07,
 }
@@ -329,6 +330,7 @@ impl Engine {
                         let running = self.w.conns.borrow().iter().filter(|c| c.called > 0 && !c.fut_dropped).count();
                         if queued + running >= self.limit {
                             self.flagv(Prop::C02, "C02/limit-exceeded", format!("connection {} was dispatched to the worker although it already had {} connections in progress ({} waiting for a service call + {} handlers running), max_concurrent_connections is {}", id, queued + running, queued, running, self.limit));
+                            self.flagv(Prop::C04, "C04/saturated-receives", format!("connection {} was dispatched to the worker although it was at its limit and had released nothing ({} waiting for a service call + {} handlers running, max_concurrent_connections {})", id, queued, running, self.limit));
                         }
                         if queued + running + 1 == self.limit {
                             self.label("dispatch-reaches-limit");
@@ -832,6 +834,15 @@ async fn run_async(c: &Case, prop: Prop) -> CaseResult {
             }
         }
         w.fail_next.borrow_mut().iter_mut().for_each(|f| *f = false);
+        // a second pass after a few milliseconds of real time if clients still wait: under load the
+        // last ACK of a loopback handshake can reach the listener a moment after connect() returned
+        for pass in 0..3 {
+            if pass > 0 {
+                if e.backlog.iter().all(|b| b.is_empty()) {
+                    break;
+                }
+                std::thread::sleep(Duration::from_millis(if pass == 1 { 5 } else { 50 }));
+            }
         for _ in 0..200 {
             let live = e.in_progress_now();
             for id in live {
@@ -852,6 +863,7 @@ async fn run_async(c: &Case, prop: Prop) -> CaseResult {
             } else if e.in_progress_now().is_empty() {
                 break;
             }
+        }
         }
         if e.worker.is_some() {
             let missing: Vec<(usize, usize)> = e.dispatched.iter().copied().collect();
@@ -939,7 +951,7 @@ async fn run_async(c: &Case, prop: Prop) -> CaseResult {
         Prop::C07 => queued_while_unready || e.labels.contains(&"restart"),
         Prop::C06 => e.labels.contains(&"stop-with-connections-in-progress"),
         Prop::C01 => e.calls_seen >= 2 && n >= 2,
-        Prop::C02 => e.labels.contains(&"dispatch-reaches-limit"),
+        Prop::C02 | Prop::C04 => e.labels.contains(&"dispatch-reaches-limit"),
     };
     // release everything that is still parked
     for cs in w.conns.borrow_mut().iter_mut() {
